@@ -175,6 +175,12 @@ class _Gen:
                 x, dx = ref()
                 return t + f'+{x}', form, cells + dx
             return t, form, cells
+        if form == 'barerange':
+            # a single cell whose formula is a bare multi-cell range: it shows the range's first cell
+            rect = self.rect_before(pos)
+            if rect is None:
+                return None
+            return f'={self.rect_text(rect, cur)}', form, self.rect_cells(rect)
         if form == 'multicolon':
             rect = self.rect_before(pos)
             if rect is None:
@@ -300,7 +306,7 @@ class _Gen:
 
 FORMS = ['arith', 'arith', 'arith', 'concat', 'cmp', 'if', 'probe', 'agg', 'agg', 'nested',
          'nested', 'multicolon', 'intersect', 'union', 'name', 'name', 'unbounded', 'index',
-         'rowcol', 'lookup', 'sumif', 'sumproduct']
+         'rowcol', 'lookup', 'sumif', 'sumproduct', 'barerange']
 ALL_FORMS = sorted(set(FORMS))
 
 
